@@ -6,6 +6,7 @@ import (
 	"fmt"
 	"os"
 	"sort"
+	"strings"
 )
 
 type checkFn func(p *Program, r *Report)
@@ -27,7 +28,22 @@ func main() {
 	verif := flag.String("verif", "/verif", "verif dir (evidence, known findings)")
 	replay := flag.String("replay", "", "replay file: re-evaluate that obligation")
 	list := flag.Bool("list", false, "list properties")
+	dump := flag.String("dump", "", "debug: dump SSA of functions whose key contains this string")
 	flag.Parse()
+	if *dump != "" {
+		p, err := Load(*repo, loadConfig{})
+		if err != nil {
+			fmt.Println(err)
+			os.Exit(2)
+		}
+		for _, fn := range p.SrcFuncs() {
+			if strings.Contains(FuncKey(fn), *dump) {
+				fmt.Println("KEY", FuncKey(fn))
+				fn.WriteTo(os.Stdout)
+			}
+		}
+		return
+	}
 
 	if *list {
 		var ids []string
